@@ -70,9 +70,11 @@ def gen_treeinfo(rng, R=None):
     return d
 
 
-def build_treeinfo(d, key_only_children_by_uid=False):
+def build_treeinfo(d, key_only_children_by_uid=False, foreign_variants=False):
     import productmd.treeinfo as TI
     ti = TI.TreeInfo()
+    other = TI.TreeInfo()       # foreign_variants: the Variant objects were created for another tree (of the opposite src-ness)
+    other.tree.arch = "x86_64" if d["tree"]["arch"] == "src" else "src"
     for k, v in d["release"].items():
         setattr(ti.release, k, v)
     if d["base_product"]:
@@ -83,7 +85,7 @@ def build_treeinfo(d, key_only_children_by_uid=False):
     ti.tree.platforms = set(d["tree"]["platforms"])
 
     def mk(vd, parent, top, only=False):
-        v = TI.Variant(ti)
+        v = TI.Variant(other if foreign_variants else ti)
         v.id, v.uid, v.name, v.type = vd["id"], vd["uid"], vd["name"], vd["type"]
         for f, p in vd["paths"].items():
             setattr(v.paths, f, p)
@@ -193,10 +195,30 @@ def impl_roundtrip(case):
     return ["ok", text, table, ["ok", [describe_ti(ti2), again]]]
 
 
+REUSE_VALID = ("[header]\ntype = productmd.treeinfo\nversion = 1.2\n\n[release]\nname = Fedora\nshort = Fedora\nversion = 22\n\n"
+               "[tree]\narch = x86_64\nbuild_timestamp = 1440000000\nplatforms = x86_64\nvariants = Zz\n\n"
+               "[variant-Zz]\nid = Zz\nname = Zz\ntype = variant\nuid = Zz\n\n")
+REUSE_BROKEN10 = "[header]\nversion = 1.0\n\n[release]\nname = X\n"
+
+
 def impl_load_text(case):
-    """load an arbitrary .treeinfo text; describe and re-dump"""
+    """load an arbitrary .treeinfo text; describe and re-dump.  case["reuse"]: the object has a history before this load -
+    1: a format-1.0 file that was refused after its header had been read; 2: a small valid tree was loaded and its variants were
+    removed again; 3: as 2, and the tree was written once.  (Only for texts with a [header]: O14.)"""
     import productmd.treeinfo as TI
     ti = TI.TreeInfo()
+    reuse = case.get("reuse")
+    if reuse == 1:
+        try:
+            ti.loads(REUSE_BROKEN10)
+        except Exception:
+            pass
+    elif reuse in (2, 3):
+        ti.loads(REUSE_VALID)
+        if reuse == 3:
+            _dumps(ti, None)
+        for k in list(ti.variants.variants):
+            del ti.variants.variants[k]
     try:
         ti.loads(case["text"])
     except EXC as e:
@@ -256,7 +278,7 @@ def impl_general(case):
     """write the tree; also give the [general] section alone to the pre-productmd reader"""
     import productmd.treeinfo as TI
     try:
-        ti = build_treeinfo(case["desc"])
+        ti = build_treeinfo(case["desc"], foreign_variants=len(case["desc"]["release"]["name"]) % 2 == 1)
         text = _dumps(ti, case.get("main_variant"))
     except EXC as e:
         return exc_result(e)
